@@ -77,6 +77,7 @@ type retSig struct {
 	kp      *secp256k1.KeyPair
 	msg     []byte
 	hashing bool
+	src     string
 }
 type retAddr struct {
 	p    *ethtypes.Address0xHex
@@ -103,12 +104,16 @@ func retainKP(kp *secp256k1.KeyPair, key []byte) {
 }
 
 func retainSig(sd *secp256k1.SignatureData, kp *secp256k1.KeyPair, msg []byte, hashing bool) {
+	src := "Sign/SignDirect"
+	if kp == nil {
+		src = "DecodeCompactRSV"
+	}
 	retMu.Lock()
 	defer retMu.Unlock()
 	if len(retSigs) > 4000 {
 		return
 	}
-	retSigs = append(retSigs, retSig{sd, cp(sd.V), cp(sd.R), cp(sd.S), kp, append([]byte{}, msg...), hashing})
+	retSigs = append(retSigs, retSig{sd, cp(sd.V), cp(sd.R), cp(sd.S), kp, append([]byte{}, msg...), hashing, src})
 }
 
 func retainAddr(p *ethtypes.Address0xHex, from map[string]interface{}) {
@@ -143,7 +148,7 @@ func checkRetained(g *gen) {
 	}
 	for i, s := range retSigs {
 		if s.sd.V.Cmp(s.v) != 0 || s.sd.R.Cmp(s.r) != 0 || s.sd.S.Cmp(s.s) != 0 {
-			noteFail("a signature returned earlier by Sign/SignDirect changed after later calls", map[string]interface{}{"V": s.v.String(), "R": s.r.String(), "S": s.s.String(), "now_V": s.sd.V.String(), "now_R": s.sd.R.String(), "now_S": s.sd.S.String(), "message": hx(s.msg)})
+			noteFail("a signature returned earlier by "+s.src+" changed after later calls", map[string]interface{}{"V": s.v.String(), "R": s.r.String(), "S": s.s.String(), "now_V": s.sd.V.String(), "now_R": s.sd.R.String(), "now_S": s.sd.S.String(), "message": hx(s.msg)})
 		}
 		g.st.Hit("retained/signature")
 		if i%2 == 0 && s.kp != nil {
@@ -174,6 +179,19 @@ func checkRetained(g *gen) {
 	}
 }
 
+// keyGone: the private key of a key pair that was built from a key in [1, n-1] reads zero (btcec's signing loop
+// does not terminate for the zero key on the zero digest, so this is checked before every signing call)
+func keyGone(kp *secp256k1.KeyPair) bool {
+	if kp == nil || kp.PrivateKey == nil {
+		return false
+	}
+	if fromBytes(kp.PrivateKeyBytes()).Sign() != 0 {
+		return false
+	}
+	noteFail("the private key of a KeyPair reads zero after earlier calls", map[string]interface{}{"address": kp.Address.String()})
+	return true
+}
+
 // doSignRaw: Sign / SignDirect without book-keeping
 func doSignRaw(hashing bool, kp *secp256k1.KeyPair, msg []byte) (cls int, s sig) {
 	defer func() {
@@ -183,6 +201,9 @@ func doSignRaw(hashing bool, kp *secp256k1.KeyPair, msg []byte) (cls int, s sig)
 	}()
 	var sd *secp256k1.SignatureData
 	var err error
+	if keyGone(kp) {
+		return 1, sig{bi(0), bi(0), bi(0)}
+	}
 	if hashing {
 		sd, err = kp.Sign(msg)
 	} else {
@@ -397,7 +418,7 @@ func sequence(g *gen, sg seqSigned, idx int) {
 	type step struct {
 		v      *big.Int // nil: leave V as the previous step left it
 		chain  int64
-		tamper int // 0 none, 1 S+1, 2 other message, 3 R+1
+		tamper int // 0 none, 1 S+1, 2 other message, 3 R+1, 4 -R, 5 -S, 6 R+n, 7 n-S (parity kept)
 	}
 	v155 := func(q, c int64) *big.Int { return validV(q, c)[2] }
 	pool := []step{
@@ -405,14 +426,21 @@ func sequence(g *gen, sg seqSigned, idx int) {
 		{bi(27 + 1 - p), c1, 0}, {bi(1 - p), c2, 0}, {v155(1-p, c1), c1, 0}, {v155(p, c1), c1, 0}, {bi(29), c1, 0}, {bi(26), c1, 0}, {bi(2), c2, 0},
 		{add(v155(p, c1), bi(2)), c1, 0}, {sub(v155(p, c1), bi(2)), c1, 0}, {add(two63, v155(p, c1)), c1, 0}, {add(two64, bi(27+p)), c1, 0},
 		{v155(p, rc), rc, 0}, {nil, rc + 1, 0}, {nil, rc, 0}, {bi(27 + p), rc, 1}, {bi(27 + p), c2, 0}, {bi(p), c2, 2}, {bi(p), c1, 0}, {v155(p, c2), c2, 3}, {v155(p, c2), c2, 0},
+		{bi(27 + p), c1, 4}, {v155(p, c1), c1, 5}, {bi(p), c2, 6}, {bi(27 + p), c2, 7}, {bi(p), c1, 5}, {v155(p, c2), c2, 4},
 		{bi(27 + p), 0, 0}, {bi(35 + p), 0, 0}, {nil, 0, 0}, {bi(36 - p), 0, 0}, {bi(p), 1 << 53, 0}, {v155(p, 1<<53), 1 << 53, 0}, {nil, 1<<53 - 1, 0},
 	}
 	// first steps fixed (a legitimate call first, then the same object with a foreign / flipped V for the same
 	// chain and with the same V for another chain), the rest in PRNG order
 	order := []int{2, 9, 2, 3, 6, 0, 7, 0, 1, 8}
-	for len(order) < 36 {
-		order = append(order, r.Intn(len(pool)))
+	perm := make([]int, len(pool))
+	for i := range perm {
+		perm[i] = i
 	}
+	for i := len(perm) - 1; i > 0; i-- {
+		j := r.Intn(i + 1)
+		perm[i], perm[j] = perm[j], perm[i]
+	}
+	order = append(order, perm...) // every step of the pool once more, in PRNG order
 	sd := &secp256k1.SignatureData{V: cp(sg.s.V), R: cp(R), S: cp(S)}
 	cur := cp(sg.s.V)
 	other := append([]byte{}, sg.msg...)
@@ -443,6 +471,14 @@ func sequence(g *gen, sg seqSigned, idx int) {
 			msg = other
 		case 3:
 			curR = add(R, bi(1))
+		case 4:
+			curR = new(big.Int).Neg(R)
+		case 5:
+			curS = new(big.Int).Neg(S)
+		case 6:
+			curR = add(R, curveN)
+		case 7:
+			curS = sub(curveN, S)
 		}
 		sd.S.Set(curS)
 		sd.R.Set(curR)
@@ -583,4 +619,81 @@ func concurrent(g *gen, sgs []seqSigned, rounds int) {
 	wg.Wait()
 	g.st.Distribution["concurrent/recover-calls"] += workers * rounds * len(tasks)
 	g.st.Evaluations += workers * rounds * len(tasks)
+}
+
+// ---- chain id sweep ----
+
+// chainSweep: the property quantifies over all chain ids in [0, 2^53]; the Coq cases use a dozen of them.
+// Here one signature is presented in the EIP-155 form for every 2^k-1, 2^k, 2^k+1 (k <= 53) and for random
+// 53-bit chain ids: with the same chain id it must recover the signer; with the chain id altered in one bit
+// (or +1) it must not, unless the two chain ids are congruent modulo 128 (known finding
+// C05/v-truncated-to-byte; theorem C05_eip155_wrong_chain states exactly this for the model).
+func chainSweep(g *gen, sg seqSigned, random int) {
+	p := sg.s.V.Int64() - 27
+	if p != 0 && p != 1 {
+		return
+	}
+	signer := sg.kp.Address[:]
+	const top = int64(1) << 53
+	var cs []int64
+	for k := uint(0); k <= 53; k++ {
+		for _, d := range []int64{-1, 0, 1} {
+			if c := int64(1)<<k + d; c >= 0 && c <= top {
+				cs = append(cs, c)
+			}
+		}
+	}
+	for i := 0; i < random; i++ {
+		cs = append(cs, int64(g.r.U64()>>11))
+	}
+	for i, c := range cs {
+		v := validV(p, c)[2]
+		s := sig{v, sg.s.R, sg.s.S}
+		cls, a := doRecover(sg.hashing, s, sg.msg, c)
+		if cls != 0 || !bytes.Equal(a, signer) {
+			f := sigFields(s, sg.msg, c)
+			f["signer"], f["hashing"] = hx(signer), sg.hashing
+			noteFail("a valid signature presented in one of the three V conventions did not recover the signer's address (chain id sweep)", f)
+		}
+		// 0/1 and 27/28 do not depend on the chain id
+		if i%16 == 0 {
+			for _, v2 := range []*big.Int{bi(p), bi(27 + p)} {
+				if cls, a := doRecover(sg.hashing, sig{v2, sg.s.R, sg.s.S}, sg.msg, c); cls != 0 || !bytes.Equal(a, signer) {
+					f := sigFields(sig{v2, sg.s.R, sg.s.S}, sg.msg, c)
+					f["signer"], f["hashing"] = hx(signer), sg.hashing
+					noteFail("a valid signature presented in one of the three V conventions did not recover the signer's address (chain id sweep)", f)
+				}
+				g.st.Evaluations++
+			}
+		}
+		other := c + 1
+		if i%2 == 1 {
+			b := g.r.Intn(7) // the bits that survive the byte() truncation of 2*chainId
+			if i%6 == 1 {
+				b = g.r.Intn(53)
+			}
+			other = c ^ (int64(1) << uint(b))
+		}
+		if other > top || other < 0 {
+			other = c - 1
+		}
+		if other < 0 {
+			other = 1
+		}
+		cls2, a2 := doRecover(sg.hashing, s, sg.msg, other)
+		g.st.Evaluations += 2
+		if cls2 == 0 && bytes.Equal(a2, signer) {
+			if (c-other)%128 == 0 {
+				g.st.Hit("chain-sweep/wrong-chain/known-finding-region")
+			} else {
+				f := sigFields(s, sg.msg, other)
+				f["signer"], f["hashing"], f["V_is_for_chain"] = hx(signer), sg.hashing, c
+				noteFail("a foreign V / tampered signature / different message recovered the signer's address (EIP-155 V of another chain id)", f)
+			}
+		} else {
+			g.st.Hit("chain-sweep/wrong-chain/" + clsName(cls2))
+		}
+		g.st.Hit("chain-sweep/same-chain/" + clsName(cls))
+	}
+	g.distinct(fmt.Sprintf("chain-sweep:%s", sg.s.R))
 }
